@@ -240,7 +240,10 @@ pub fn run_case(sub: u64, acc: &mut Acc) {
             "crash_points": format!("every event index 0..{} x {{stop,error}} for slice and reader; every read index x {{error,interrupted}}", full.evs.len() - 1)}));
     }
     // printers: match limit for every N, failing writer
-    if case.cfg.bin == Bin::None && !case.cfg.passthru && !case.cfg.multi_line && case.cfg.term == Term::Lf {
+    // (also with multi-line mode requested, as long as the pattern cannot match a line terminator:
+    // the searcher then works line by line under a multi-line configuration)
+    let really_ml = case.cfg.multi_line && build_matcher(&case).map(|m| searcher_is_multi_line(&case, &m)).unwrap_or(true);
+    if case.cfg.bin == Bin::None && !case.cfg.passthru && !really_ml && case.cfg.term == Term::Lf {
         printer_leg(sub, &case, &mut rng, acc);
     }
 }
@@ -374,20 +377,46 @@ fn printer_leg(sub: u64, case: &Case, rng: &mut Rng, acc: &mut Acc) {
                     acc.violations.push(mk("match-limit:json", format!("max_matches={n}: JSON printer reported lines {:?}, expected {:?}", got, expect), n, "json", &out));
                 }
             }
-            // Summary (count)
-            let mut printer = SummaryBuilder::new().kind(SummaryKind::Count).max_matches(Some(n)).build_no_color(SimWriter::new(None));
-            let mut searcher = build_searcher(&c.cfg, &Knobs::default());
-            let res = searcher.search_slice(&matcher, &c.data, printer.sink(&matcher));
-            let out = printer.into_inner().into_inner().out.clone();
-            let count: Option<u64> = String::from_utf8_lossy(&out).trim().parse().ok();
-            let want = n.min(match_lns.len() as u64);
-            let ok = match count {
-                Some(cn) => cn == want,
-                None => want == 0 && out.is_empty(),
-            };
-            if res.is_err() || !ok {
-                if acc.violations.iter().filter(|v| v.class == "match-limit:summary").count() < 10 {
-                    acc.violations.push(mk("match-limit:summary", format!("max_matches={n}: count printed {:?}, expected {want}", String::from_utf8_lossy(&out)), n, "summary", &out));
+            // Summary (count), with and without statistics (which switch on extra bookkeeping), and
+            // count-matches: a limit of N matching lines, however many matches those lines hold
+            use grep_matcher::Matcher;
+            let ml = searcher_is_multi_line(&c, &matcher);
+            for (kind, stats) in [(SummaryKind::Count, false), (SummaryKind::Count, true), (SummaryKind::CountMatches, true)] {
+                if kind == SummaryKind::CountMatches && (ml || c.cfg.invert) {
+                    continue;
+                }
+                let mut printer = SummaryBuilder::new().kind(kind).stats(stats).max_matches(Some(n)).build_no_color(SimWriter::new(None));
+                let mut searcher = build_searcher(&c.cfg, &Knobs::default());
+                let res = searcher.search_slice(&matcher, &c.data, printer.sink(&matcher));
+                let out = printer.into_inner().into_inner().out.clone();
+                let count: Option<u64> = String::from_utf8_lossy(&out).trim().parse().ok();
+                let want = if kind == SummaryKind::Count {
+                    n.min(match_lns.len() as u64)
+                } else {
+                    // matches inside the first n matching lines
+                    let lines: Vec<&[u8]> = c.data.split_inclusive(|&b| b == b'\n').collect();
+                    let mut total = 0u64;
+                    for &ln in match_lns.iter().take(n as usize) {
+                        let l = lines[ln as usize - 1];
+                        let l = if l.ends_with(b"\n") { &l[..l.len() - 1] } else { l };
+                        let mut k = 0u64;
+                        let _ = matcher.find_iter(l, |_| {
+                            k += 1;
+                            true
+                        });
+                        total += k.max(1);
+                    }
+                    total
+                };
+                let ok = match count {
+                    Some(cn) => cn == want,
+                    None => want == 0 && out.is_empty(),
+                };
+                if res.is_err() || !ok {
+                    let class = format!("match-limit:summary{}{}", if kind == SummaryKind::CountMatches { "-count-matches" } else { "" }, if stats { "+stats" } else { "" });
+                    if acc.violations.iter().filter(|v| v.class == class).count() < 10 {
+                        acc.violations.push(mk(&class, format!("max_matches={n}: count printed {:?}, expected {want}", String::from_utf8_lossy(&out)), n, "summary", &out));
+                    }
                 }
             }
         }
@@ -412,6 +441,11 @@ fn printer_leg(sub: u64, case: &Case, rng: &mut Rng, acc: &mut Acc) {
             }
         }
     }
+}
+
+/// True if the searcher really uses its multi-line strategy for this case.
+fn searcher_is_multi_line(c: &Case, matcher: &grep_regex::RegexMatcher) -> bool {
+    build_searcher(&c.cfg, &Knobs::default()).multi_line_with_matcher(matcher)
 }
 
 pub fn replay(v: &Value) -> Option<(String, String)> {
